@@ -5,7 +5,7 @@
  * for every input and output, assertion interceptor (any hit of an internal
  * 'cannot happen' check is a violation keyed by file:line), return code within
  * 0..15, documented code for out-of-domain scalars (only where the call is
- * otherwise well-formed), per-call alarm (totality).  Phases: asan (assertions
+ * otherwise well-formed), per-call CPU-time watchdog (totality).  Phases: asan (assertions
  * on), asan-ndebug (release behaviour of the same workload: the "self-healing"
  * branches must be memory-safe too), memcheck (thorough tier, small slice).
  */
@@ -17,7 +17,7 @@
 #define CAP_SLOTS 2000000
 
 static vf_rng *R;
-static const char *CUR = "?";
+static const char *volatile CUR = "?";
 static int64_t n_calls, n_skipped_size, n_judged;
 
 static void bad_code(const char *fn, H3Error e) {
@@ -602,7 +602,9 @@ static void t_polygons(void) {
         if (!(e == E_OPTION_INVALID || e == E_RES_DOMAIN) || (!lbad && e != E_RES_DOMAIN) || (!badres && e != E_OPTION_INVALID))
             vf_violation("wrong-code", CUR, 18, "", "res=%d flags=%u: rc=%u", res, lflags, e);
     }
-    if (!e && *sz >= 0 && *sz <= CAP_SLOTS) {
+    /* the legacy fill probes its output array as an open-addressing hash set: its cost is not linear in the size (a 2e6-slot
+     * fill was measured at 30 CPU-seconds), so it gets a tighter cap than the other functions; larger ones are counted */
+    if (!e && *sz >= 0 && *sz <= CAP_SLOTS / 10) {
         H3Index *o = vf_buf_new((size_t)*sz * 8, 0);
         CALL(polygonToCells), e = polygonToCells(&P.gp, res, lflags, o), bad_code(CUR, e);
         if (vf_buf_check(o)) vf_violation("overrun", CUR, 19, "", "wrote outside maxPolygonToCellsSize=%" PRId64, *sz);
@@ -704,44 +706,30 @@ static const struct {
          {"vertexes", t_vertexes, 2},         {"misc_doubles", t_misc_doubles, 1}, {"polygons", t_polygons, 3}, {"multipolygon", t_multipolygon, 2}, {"sequence", t_sequence, 3}};
 #define NT ((int)(sizeof T / sizeof T[0]))
 
-static void on_alarm(int sig) {
-    (void)sig;
-    /* the call did not return within the per-call budget: a totality violation.  Write the record and die. */
-    char buf[600];
-    int n = snprintf(buf, sizeof buf, "{\"t\":\"viol\",\"property\":\"C12\",\"kind\":\"hang\",\"fn\":\"%s\",\"key\":\"%016" PRIx64 "\",\"sigs\":\"\",\"replay\":\"%.300s\",\"detail\":\"%s did not return within the per-call time budget\"}\n",
-                     CUR, vf_mix((uint64_t)(uintptr_t)CUR), vf_case_get(), CUR);
-    if (VF.log) {
-        fflush(VF.log);
-        if (write(fileno(VF.log), buf, (size_t)n) < 0) _exit(4);
-    }
-    _exit(3);
-}
 static void one_case(int ti, vf_rng *r) {
     R = r;
     vf_case("call %d %016" PRIx64 " %016" PRIx64 " %016" PRIx64 " %016" PRIx64 " %s", ti, r->s[0], r->s[1], r->s[2], r->s[3], T[ti].name);
-    alarm(VF_T(60, 120));
     if (VF_GUARD()) {
         T[ti].f();
     } else {
         vf_assert_report(CUR, 0);
     }
     VF_UNGUARD();
-    alarm(0);
     vf_add(T[ti].name, 1);
 }
 static void run(void) {
     vf_rng r;
     vf_rng_stream(&r, 12);
-    signal(SIGALRM, on_alarm);
+    /* totality: a call that burns 120 (thorough and memcheck: 240) CPU-seconds has not returned — CPU time, not wall-clock */
+    vf_watchdog_fn(&CUR);
+    vf_watchdog(10, VF.thorough || !strcmp(VF.phase, "memcheck") ? 24 : 12);
     if (VF.shard == 0) {
         R = &r;
         vf_case("witness-f4");
-        alarm(VF_T(60, 120));
-        if (VF_GUARD()) t_witness_f4();
+            if (VF_GUARD()) t_witness_f4();
         else vf_assert_report(CUR, 0);
         VF_UNGUARD();
-        alarm(0);
-        vf_add("witness.F4_cases", 1);
+            vf_add("witness.F4_cases", 1);
     }
     int64_t n = VF_T(45000, 1500000);
     if (!strcmp(VF.phase, "ndebug")) n = VF_T(15000, 400000);
@@ -763,7 +751,9 @@ static void run(void) {
 static void replay(const char *spec) {
     int ti;
     vf_rng r;
-    signal(SIGALRM, on_alarm);
+    /* totality: a call that burns 120 (thorough and memcheck: 240) CPU-seconds has not returned — CPU time, not wall-clock */
+    vf_watchdog_fn(&CUR);
+    vf_watchdog(10, VF.thorough || !strcmp(VF.phase, "memcheck") ? 24 : 12);
     if (sscanf(spec, "call %d %" SCNx64 " %" SCNx64 " %" SCNx64 " %" SCNx64, &ti, &r.s[0], &r.s[1], &r.s[2], &r.s[3]) == 5 && ti >= 0 && ti < NT) {
         one_case(ti, &r);
         vf_add("cases", 1);
@@ -771,10 +761,8 @@ static void replay(const char *spec) {
     } else if (!strncmp(spec, "witness-f4", 10)) {
         vf_rng_seed(&r, 1);
         R = &r;
-        alarm(120);
         t_witness_f4();
-        alarm(0);
-    } else
+        } else
         vf_fatal("bad replay spec: %s", spec);
 }
 int main(int argc, char **argv) { return vf_main(argc, argv, "C12", run, replay); }
